@@ -109,126 +109,7 @@ def _filter_verdict(prog, text):
     return None
 
 
-class _PathModel(dict):
-    """Model of a pathlib path: an object model (hashable by identity) that also supports the `/` operator."""
-    __hash__ = object.__hash__
-
-    def __eq__(self, other):
-        return isinstance(other, _PathModel) and self["__str__"] == other["__str__"]
-
-    def __truediv__(self, other):
-        tail = other["__str__"] if isinstance(other, dict) else other
-        if not isinstance(tail, str):
-            return NotImplemented
-        return self["__fs__"].path(tail if tail.startswith("/") else self["__str__"].rstrip("/") + "/" + tail)
-
-    def __rtruediv__(self, other):
-        if not isinstance(other, str):
-            return NotImplemented
-        return self["__fs__"].path(self["__str__"] if self["__str__"].startswith("/") else other.rstrip("/") + "/" + self["__str__"])
-
-
-class FileSystemModel:
-    """A dictionary path -> text standing for the file system during a model evaluation, as an ObjRunner hook: open (read / write /
-    append), read, read(n), readline, readlines, iteration, write, writelines, close, pathlib.Path (name, stem, suffix, parent, is_file,
-    exists) and str(path).  read(n) hands out at most `short_read` characters at a time - the documented contract of read(size) is 'at
-    most size characters', and code that reads in blocks has to cope with a block boundary anywhere in a line."""
-
-    def __init__(self, files=None, short_read=157):
-        self.files = dict(files or {})
-        self.short_read = short_read
-        self.opened = []
-
-    @staticmethod
-    def _text(x):
-        return x["__str__"] if isinstance(x, dict) and x.get("__class__") == "<path>" else x
-
-    def path(self, src):
-        from pathlib import PurePosixPath
-        from ..guards import Obj
-        p_ = PurePosixPath(src)
-        o = _PathModel({"__class__": "<path>", "__str__": str(p_), "name": p_.name, "stem": p_.stem, "suffix": p_.suffix, "suffixes": list(p_.suffixes),
-                        "__fs__": self})
-        if str(p_.parent) != str(p_):
-            o["parent"] = self.path(str(p_.parent))
-        return o
-
-    def hook(self, run, interp, call, args, kw):
-        from ..guards import Flow, Obj
-        name = U(call.func)
-        if name in ("Path", "pathlib.Path", "PurePath") and len(args) == 1 and isinstance(self._text(args[0]), str):
-            return self.path(self._text(args[0]))
-        if name == "str" and len(args) == 1 and isinstance(args[0], dict) and args[0].get("__class__") == "<path>":
-            return args[0]["__str__"]
-        if name == "open" and args and isinstance(self._text(args[0]), str):
-            path = self._text(args[0])
-            mode = args[1] if len(args) > 1 else kw.get("mode", "r")
-            if "w" in mode:
-                self.files[path] = ""
-            elif "a" in mode:
-                self.files.setdefault(path, "")
-            elif path not in self.files:
-                raise Flow("raise", f"FileNotFoundError({path!r})", call)
-            self.opened.append((path, mode))
-            f = Obj({"__class__": "<file>", "path": path, "mode": mode, "pos": 0})
-            f["__lines__"] = lambda f=f: self._rest(f).splitlines(keepends=True)
-            return f
-        if isinstance(call.func, ast.Attribute):
-            attr = call.func.attr
-            if attr in ("joinpath", "with_suffix", "with_name", "resolve", "absolute", "as_posix", "open"):
-                recv = interp.ev(call.func.value)
-                if isinstance(recv, dict) and recv.get("__class__") == "<path>":
-                    here = recv["__str__"]
-                    if attr == "joinpath":
-                        out = recv
-                        for a in args:
-                            out = out / a
-                        return out
-                    if attr == "with_suffix" and args:
-                        return self.path(here[: len(here) - len(recv["suffix"])] + args[0])
-                    if attr == "with_name" and args:
-                        return recv["parent"] / args[0] if "parent" in recv else self.path(args[0])
-                    if attr in ("resolve", "absolute"):
-                        return recv if here.startswith("/") else self.path("/cwd/" + here)
-                    if attr == "as_posix":
-                        return here
-                    if attr == "open":
-                        fake = ast.Call(func=ast.Name(id="open", ctx=ast.Load()), args=[], keywords=[])
-                        return self.hook(run, interp, ast.copy_location(fake, call), [recv, *args], kw)
-                return NotImplemented
-            if attr in ("read", "readline", "readlines", "write", "writelines", "close", "flush", "is_file", "exists", "is_dir"):
-                recv = interp.ev(call.func.value)
-                if isinstance(recv, dict) and recv.get("__class__") == "<path>" and attr in ("is_file", "exists", "is_dir"):
-                    here = recv["__str__"]
-                    is_file = here in self.files
-                    is_dir = any(k.startswith(here.rstrip("/") + "/") for k in self.files) or here in (".", "")
-                    return is_file if attr == "is_file" else is_dir if attr == "is_dir" else (is_file or is_dir)
-                if not (isinstance(recv, dict) and recv.get("__class__") == "<file>"):
-                    return NotImplemented
-                if attr in ("close", "flush"):
-                    return None
-                if attr == "write":
-                    self.files[recv["path"]] += args[0]
-                    return len(args[0])
-                if attr == "writelines":
-                    self.files[recv["path"]] += "".join(args[0])
-                    return None
-                rest = self.files[recv["path"]][recv["pos"]:]
-                if attr == "read":
-                    n = len(rest) if not args or args[0] is None or args[0] < 0 else min(args[0], self.short_read)
-                    out = rest[:n]
-                elif attr == "readline":
-                    out = rest.splitlines(keepends=True)[0] if rest else ""
-                else:
-                    out = rest
-                recv["pos"] += len(out)
-                return out.splitlines(keepends=True) if attr == "readlines" else out
-        return NotImplemented
-
-    def _rest(self, f):
-        rest = self.files[f["path"]][f["pos"]:]
-        f["pos"] += len(rest)
-        return rest
+from ..fsmodel import FileSystemModel, _PathModel  # noqa: E402,F401  (re-exported: the checks import it from here)
 
 
 def rule_patch_isolation(prog, rep, rid):
@@ -405,29 +286,19 @@ def respaced(prog, lines):
     return written_file(prog, lines, whitespace=True, is_cif=False)
 
 
-def written_file(prog, lines, whitespace, is_cif):
-    """The lines of the file print_pqr writes from the given output lines under the two flags that steer it (print_pqr is interpreted)."""
+def written_file(prog, lines, whitespace, is_cif, printer="print_pqr"):
+    """The lines of the file print_pqr (or print_pdb) writes from the given output lines under the two flags that steer it (the printer is
+    interpreted on a file-system model)."""
     from ..guards import Flow, Obj
     from ..objinterp import ObjRunner
-    written = []
-
-    def extra(runner, interp, call, args, kw):
-        if U(call.func) == "open":
-            return Obj({"__class__": "FileModel"})
-        if isinstance(call.func, ast.Attribute) and call.func.attr == "write":
-            recv = interp.ev(call.func.value)
-            if isinstance(recv, dict) and recv.get("__class__") == "FileModel":
-                written.append(args[0])
-                return None
-        return NotImplemented
-
-    run = ObjRunner(prog, "main.py", extra_hook=extra)
-    argsm = Obj({"__class__": "Namespace", "whitespace": whitespace, "output_pqr": "model.pqr"})
+    fs = FileSystemModel()
+    run = ObjRunner(prog, "main.py", extra_hook=fs.hook)
+    argsm = Obj({"__class__": "Namespace", "whitespace": whitespace, "output_pqr": "model.pqr", "pdb_output": "model.pdb"})
     try:
-        run.call_function("main.py", "print_pqr", argsm, list(lines), [], [], is_cif)
+        run.call_function("main.py", printer, argsm, list(lines), [], [], is_cif)
     except Flow as fl:
-        raise AnalysisError(f"print_pqr stops with {fl.value} on the model lines") from None
-    return "".join(str(x) for x in written).splitlines(keepends=True)
+        raise AnalysisError(f"{printer} stops with {fl.value} on the model lines") from None
+    return fs.files.get("model.pqr" if printer == "print_pqr" else "model.pdb", "").splitlines(keepends=True)
 
 
 _MODEL_CACHE = {}
@@ -764,7 +635,7 @@ def rule_bundled_tables_from_package(prog, rep, rid):
     r = rep.rule(rid, "bundled tables are taken from the package's data directory, whatever files the working directory holds", floor=4)
     fn = prog.func("io.py", "test_for_file")
     where = f"pdb2pqr/io.py:{fn.node.lineno} (test_for_file)"
-    pkg = "/site/pdb2pqr"
+    from ..fsmodel import PKG_ROOT as pkg
     bundled = {f"{pkg}/dat/{n}": "bundled" for n in ("AMBER.DAT", "AMBER.names", "PARSE.DAT", "PARSE.names", "AA.xml", "NA.xml", "PATCHES.xml", "HYDROGENS.xml", "TOPOLOGY.xml")}
     cases = [("test_for_file", ("amber", "DAT"), "AMBER.DAT"), ("test_for_file", ("AMBER", "names"), "AMBER.names"), ("test_for_file", ("parse", "DAT"), "PARSE.DAT"),
              ("test_dat_file", ("amber",), "AMBER.DAT"), ("test_names_file", ("PARSE",), "PARSE.names"), ("test_xml_file", ("AA",), "AA.xml"),
